@@ -77,6 +77,7 @@ func init() {
 		"fmt.Sprint":                        freshString,
 		"strconv.Itoa":                      freshString,
 		"encoding/json.Marshal":             jsonMarshal,
+		"encoding/json.Unmarshal":           jsonUnmarshal,
 	}
 }
 
@@ -491,5 +492,44 @@ func errorsIs(x *Exec, st *State, site ssa.Instruction, fn *ssa.Function, args [
 
 func jsonMarshal(x *Exec, st *State, site ssa.Instruction, fn *ssa.Function, args []Val) Val {
 	x.trust("encoding/json.Marshal has no effect on modelled state; its output is uninterpreted")
+	return freshResults(x, st, fn)
+}
+
+// json.Unmarshal(data, &v): the target is overwritten; every reference it then holds (one level
+// deep) is either nil or a freshly allocated object, disjoint from everything that existed before.
+func jsonUnmarshal(x *Exec, st *State, site ssa.Instruction, fn *ssa.Function, args []Val) Val {
+	x.trust("encoding/json.Unmarshal overwrites its target with freshly allocated data (references one level deep are nil or new objects); decoded values are otherwise unconstrained")
+	tgt := unbox(args[1])
+	if tgt.K != VPtr {
+		unsupported("json.Unmarshal into a non-pointer")
+	}
+	et := tgt.Typ.Underlying().(*types.Pointer).Elem()
+	var mk func(t types.Type, hint string) Val
+	mk = func(t types.Type, hint string) Val {
+		switch kindOf(t) {
+		case VPtr:
+			r := Ite(FreshVar("json.nil", SBool), IntLit(0), x.freshRef(st))
+			return Val{K: VPtr, Typ: t, Prefix: objPrefix(t.Underlying().(*types.Pointer).Elem()), Idx: []*Term{r}}
+		case VMap:
+			return Val{K: VMap, Typ: t, T: Ite(FreshVar("json.nil", SBool), IntLit(0), x.freshRef(st))}
+		case VSlice:
+			isNil := FreshVar("json.nil", SBool)
+			ln := FreshVar("json.len", SInt)
+			x.assume(st, Ge(ln, IntLit(0)))
+			return Val{K: VSlice, Typ: t, Arr: Ite(isNil, IntLit(0), x.freshRef(st)), Off: IntLit(0), Len: Ite(isNil, IntLit(0), ln)}
+		case VStruct:
+			if _, ok := t.Underlying().(*types.Array); ok {
+				return freshVal(t, hint)
+			}
+			s := structFields(t)
+			v := Val{K: VStruct, Typ: t}
+			for i := 0; i < s.NumFields(); i++ {
+				v.Fields = append(v.Fields, mk(s.Field(i).Type(), hint+"."+s.Field(i).Name()))
+			}
+			return v
+		}
+		return freshVal(t, hint)
+	}
+	storePlace(st.heap, ptrPlace(tgt), et, mk(et, "json"))
 	return freshResults(x, st, fn)
 }
